@@ -90,6 +90,33 @@ def _work(args):
     return out
 
 
+def huge_sizes():
+    """size-genericity does not stop at 2**31: the same descriptions on zero-stride views with a few and with billions of elements (graph=True only, nothing is executed)"""
+    out = []
+    z = np.zeros(())
+    for op, desc, small, big in [("get_at", "a [h], a p -> a p", [(3, 4), (3, 2)], [(3, 2 ** 30), (3, 2)]), ("add_at", "a [h], p, p -> a [h]", [(3, 4), (2,), (2,)], [(3, 2 ** 30), (2,), (2,)]),
+                                 ("set_at", "a [h] b, p, p -> a [h] b", [(2, 4, 3), (2,), (2,)], [(2 ** 16, 2 ** 15, 3), (2,), (2,)]), ("get_at", "[h w], p [2] -> p", [(5, 6), (3, 2)], [(2 ** 16, 2 ** 16 + 1), (3, 2)]),
+                                 ("sum", "a [b] c", [(2, 3, 4)], [(2 ** 11, 2 ** 11, 2 ** 10)]), ("id", "a (b c) -> (a b) c", [(2, 12)], [(2 ** 10, 2 ** 22)])]:
+        texts = []
+        for shapes in (small, big):
+            ts = [np.broadcast_to(z, s) if i == 0 or op in ("sum", "id") else np.broadcast_to(np.zeros((), dtype=int), s) if i < len(shapes) - (0 if op == "get_at" else 1) else np.broadcast_to(z, s) for i, s in enumerate(shapes)]
+            kw = {"c": 4} if op == "id" else {}
+            for be in ("numpy", "numpy.numpylike"):
+                o = harness.call_einx(op, desc, ts, dict(kw, graph=True), be)
+                texts.append((be, shapes, o))
+        for be in ("numpy", "numpy.numpylike"):
+            rows = [(sh, o) for b, sh, o in texts if b == be]
+            d = {"op": op, "description": desc, "shapes": [list(s) for s in big], "kwargs": {}, "backend": be}
+            if any(o[0] != "ok" or not isinstance(o[1], str) for _, o in rows):
+                if all(o[0] == "exc" and o[1].endswith("OperationNotSupportedError") for _, o in rows):
+                    continue
+                out.append(("no-text", d, f"{[o[:2] for _, o in rows]}"[:200]))
+                continue
+            sk = [skeleton(o[1])[0] for _, o in rows]
+            out.append(("ok", d, None) if sk[0] == sk[1] else ("size-dependent", dict(d, code_a=rows[0][1][1], code_b=rows[1][1][1]), "structure (or a non-integer literal) of the generated code differs between a tensor of a few and one of billions of elements"))
+    return out
+
+
 def replay(seed, idx, op, desc):
     for r in _work((seed, idx)):
         if r[0] != "ok" and r[1]["op"] == op:
@@ -108,7 +135,7 @@ def run(tier, seed):
     ok, sites, failing = frame.rule_template()
     chk.add_rule("C17.S.template", ok, sites, failing)
     n = 10 if tier == "quick" else 400
-    res = [x for r in harness.pmap(_work, [(seed, i) for i in range(n)]) for x in r]
+    res = [x for r in harness.pmap(_work, [(seed, i) for i in range(n)]) for x in r] + huge_sizes()
     fails = [r for r in res if r[0] != "ok"]
     seen = set()
     for st, d, detail in fails:
